@@ -45,6 +45,9 @@ def efReply (n u : Nat) : String :=
 
 def logicOK (logic : String) : Bool :=
   logic == "shards" || logic == "fullsigs" || logic == "noshards1" || logic == "noshards2"
+    || logic == "mwhcshards" || logic == "mwhcnoshards"
+
+def isMwhc (logic : String) : Bool := logic == "mwhcshards" || logic == "mwhcnoshards"
 
 def vbuildReply (kind logic : String) (W : Nat) (backend : String) (b : Nat) : String :=
   if ¬ logicOK logic ∨ ¬ (kind = "func" ∨ kind = "filter") ∨ ¬ (backend = "bfv" ∨ backend = "box") then "bad-op"
@@ -54,6 +57,14 @@ def vbuildReply (kind logic : String) (W : Nat) (backend : String) (b : Nat) : S
 
 def vsizeReply (logic : String) (W : Nat) (backend : String) (n b shards s l m V : Nat) : String :=
   if ¬ logicOK logic ∨ ¬ (backend = "bfv" ∨ backend = "box") then "bad-op" else
+  if isMwhc logic then
+    -- for the MWHC logics the field `l` of the op line carries `seg_size` (and `s` is 0)
+    let cells := mwhcCells l shards
+    let bytes := vfuncBytes (backend == "box") W b cells
+    let mm := if logic = "mwhcshards" then m else n
+    let hyp := mwhcHyp n shards l mm V && (logic == "mwhcshards" || shards == 1)
+    s!"ok {bytes} {cells} {fmtBool hyp}"
+  else
   let cells := vfuncCells l s shards
   let bytes := vfuncBytes (backend == "box") W b cells
   let mm := if logic = "shards" ∨ logic = "fullsigs" then m else n
